@@ -233,7 +233,9 @@ pub fn decode_top(r: &mut Rec, kty: Ty, vty: Ty, cfg: &DbCfg, universe: usize, t
             let ranged = r.bool();
             let range = ranged.then(|| (dec_bound(r, kty, universe, page), dec_bound(r, kty, universe, page)));
             let p = r.u8();
-            let panic_at = (allow_panic && p >= 250).then(|| u32::from(p - 250));
+            // profiles that allow it (C05): four retain calls in ten have a predicate that panics
+            // after 0-7 entries, so that poisoned transactions are a regular event
+            let panic_at = (allow_panic && p >= 150).then(|| u32::from(p - 150) % 8);
             TOp::Retain { salt, keep, range, panic_at }
         }
         15 => {
